@@ -55,6 +55,10 @@ and `Ref.eval`/`Ref.runProgram` themselves:
                                   functions as values.
 * `segment_lemma_Fx`, `compile_correct_on_F2x` — F2 with `break`/`continue` (plain or labelled) in
                                   top-level `for` loops: the simulation gets a non-landing outcome.
+* `tail_call_simulates`, `compile_correct_on_F2c` — F2c: self tail calls (`tailGuard`, operands inline,
+                                  `prepareCall`, `removeScope`s, `goto 0`): guard passes ⇒ the rest of the
+                                  activation is the ordinary application of the same closure; guard fails ⇒
+                                  the ordinary call behind the jump.
 
 `compile_correct_partial` (below) says what is proved of the semantic statement and names
 the unproved remainder (`CompileCorrectOutsideProved`).
@@ -66,7 +70,8 @@ import ZygoVerif.Proofs.SimF0cTop
 import ZygoVerif.Proofs.SimFvTop
 import ZygoVerif.Proofs.SimFcTop
 import ZygoVerif.Proofs.SimF2Top
-import ZygoVerif.Proofs.SimF2BrkFor
+import ZygoVerif.Proofs.SimF2BrkTop
+import ZygoVerif.Proofs.SimF2TailTop
 namespace ZygoVerif.C02
 open ZygoVerif.Core ZygoVerif.VM
 
@@ -1006,14 +1011,14 @@ enclosing loops `Γ`) compiled in place either lands with its value (as `segment
 reference trace, or — when the reference evaluator yields `brk l`/`cont l` — has jumped to the
 `clearMark` resp. the `continue` label of the loop `l` names, the scopes opened inside that loop
 popped, the data stack holding only values above the loop's mark (`JumpedF`). -/
-theorem segment_lemma_Fx (ls : List (Option String)) (es : List Expr) (hne : es ≠ []) (he : FxList ls es = true)
-    (isFn : Nat → Bool) (c : Ctx) (hfn : c.funcname = "") (gs : GS) (r : (List Instr × Bool) × GS)
+theorem segment_lemma_Fx (ls : List (Option String)) (self : String) (es : List Expr) (hne : es ≠ [])
+    (he : FxList ls self es = true) (isFn : Nat → Bool) (c : Ctx) (hfn : FnameOk self c) (gs : GS) (r : (List Instr × Bool) × GS)
     (hc : (compileBegin isFn c es).run gs = .ok r) (Γ : List LCtx) (hls : Γ.map (·.label) = ls) (hg : GsOk Γ gs)
     (m : Nat → Nat) (s : St) (rs : Ref.St) (env : Nat)
     (pre post : List Instr) (hrel : RelF m s rs env) (hgen : GenOk gs r.2 s) (hctx : CtxF Γ c.scopes s rs)
     (hlf : LoopsFinal r.2 s) (hlo : LsOut pre gs.loops.length r.2.loops.length) (hseg : Seg s pre r.1.1 post)
     (n : Nat) : SimX r.1.1 Γ m s rs env (Ref.evalBegin n es env rs) :=
-  segment_Fx_begin ls es hne he isFn c hfn gs r hc Γ hls hg m s rs env pre post hrel hgen hctx hlf hlo hseg n
+  segment_Fx_begin ls self es hne he isFn c hfn gs r hc Γ hls hg m s rs env pre post hrel hgen hctx hlf hlo hseg n
 
 /-- **`CompileCorrect` for F2 with `break`/`continue`**: program texts whose top-level forms are F2
 forms or `for` loops (also under `begin`/`cond`/`let`/`letseq`/`newScope`) that leave a loop —
@@ -1114,15 +1119,182 @@ example : ∃ fuel' o, obsOfRef (Ref.runProgram 12 demoBrk Ref.initSt).1 = some 
   | brk l rs' => rw [hres] at h; simp [refClass] at h
   | cont l rs' => rw [hres] at h; simp [refClass] at h
 
-/-- the programs covered by a theorem: every top-level form in Fv, or every top-level form in Fc,
-or every top-level form in F2, or every top-level form in Fx (F2 with `break`/`continue` in top-level loops) -/
-def InProvedFragment (p : List Expr) : Prop := FvList p = true ∨ FcList p = true ∨ FtList p = true ∨ FxTop p = true
+/-! ## F2c: self tail calls -/
 
-/-- **The part of `CompileCorrect` that is NOT proved**: programs that are in none of Fv, Fc, F2, Fx —
+/-- **A call in tail position of a function body** (`Sim.simT_selfcall`, restated): whatever the
+generator made of it — an ordinary `callExpr`, or the self-tail-call sequence `tailGuard`, operands
+inline, `prepareCall`, `removeScope` × (scopes+1), `goto 0`, `callExpr` — the code simulates
+`Ref.eval` of the call: it lands with the value (`SimF`, the ordinary call: guard failed or never
+emitted), or — guard passed — the whole activation returns the value of applying the same closure
+to the new arguments (`RetOut`: the state `FClaimU` describes for an ordinary call of that closure
+from the original call site). -/
+theorem tail_call_simulates {k : Nat} {self h : String} {args : List Expr} (hh : (h != "") = true) (hhead : okHead h = true)
+    (hfa : FaList args = true) (hself : (h != self) = true ∨ FfList false self args = true)
+    (isFn : Nat → Bool) (c : Ctx) (gs : GS) (r : (List Instr × Bool) × GS)
+    (hc : (compile isFn c (.call (.sym h) args)).run gs = .ok r) (hfn : FnameOk self c)
+    {ps : List String} (hkn : KnownOk c gs ps) (hps : ∀ p ∈ ps, okParam p = true)
+    {m₁ : Nat → Nat} {s₁ : St} {rs₁ : Ref.St} {env vid : Nat} {D : List (Option Val)} {m : Nat → Nat} {s : St} {rs : Ref.St}
+    {cenv : Nat} {pre post : List Instr}
+    (hact : InAct m₁ s₁ rs₁ env vid D c.scopes m s rs) (hnargs : (fnOf s₁ vid).nargs = ps.length)
+    (hrel : RelF m s rs cenv) (hseg : Seg s pre r.1.1 post) :
+    SimT r.1.1 s₁ env D m s rs cenv (Ref.eval (k + 2) (.call (.sym h) args) cenv rs) := by
+  obtain ⟨_, _, _, hA, hU, _, _, _, _, _, _, hV, _⟩ := fclaims (k + 1)
+  exact simT_selfcall hV hA hU hh hhead hfa hself isFn c gs r hc hfn hkn hps hact hnargs hrel hseg
+
+/-- **`CompileCorrect` for F2c**: program texts of top-level statements whose loops may `break`/`continue`
+(`Fx [] ""`, so every program of Fx) and top-level `defn`s whose bodies (`FzList true`) call the function
+itself in tail position (under `begin`/`cond`/`let`/`letseq`/`newScope`, any number of such calls) and
+contain, before the last form, statements whose `for` loops `break`/`continue` (plain or labelled, their
+own loops). The jump path and the fallback to the ordinary call (the name was re-bound at run time) are
+both covered. -/
+theorem compile_correct_on_F2c : CompileCorrectOn (fun p => FyList p = true) := by
+  intro p hp hwf fuel o ho
+  cases p with
+  | nil => exact compile_correct_on_F0c [] rfl hwf fuel o ho
+  | cons e es =>
+    obtain ⟨N, hN⟩ := runText_Fy id VM.initSt Ref.initSt (e :: es) (by simp) hp atRest_initSt rfl rfl
+      (fun l hl => by cases hl) (relF_initSt id) fuel
+    refine ⟨N, ?_⟩
+    have h := hN N (Nat.le_refl _)
+    unfold Ref.runProgram at ho
+    cases hres : Ref.evalBegin fuel (e :: es) 0 { Ref.initSt with trace := [] } with
+    | ok v rs' =>
+      rw [hres] at h
+      simp only [hres] at ho
+      obtain ⟨sf, d, hout⟩ := h
+      rw [hout]; exact ho
+    | err rs' =>
+      rw [hres] at h
+      simp only [hres] at ho
+      obtain ⟨sf, d, hout⟩ := h
+      rw [hout]; exact ho
+    | timeout => simp only [hres] at ho; cases ho
+    | brk l rs' => rw [hres] at h; exact h.elim
+    | cont l rs' => rw [hres] at h; exact h.elim
+
+macro "fy_mem" d:ident : tactic =>
+  `(tactic| simp [$d:ident, FyList, Fy, FzList, Fz, FzArms, FxList, Fx, FxArms, lblOk, FtList, FfList, Ff, FaList, FfArms, FfBinds,
+      okParam, okName, okBinder, okSym, okHead, foBuiltins, hoNames])
+
+/-- `(defn loop [i acc] (cond (== i 0) acc (loop (- i 1) (+ acc i)))) (trace (loop 3 0))`: a loop by a self tail
+call -/
+def demoTail : List Expr :=
+  [.defn "loop" ["i", "acc"] none [.cond [(.call (.sym "==") [.sym "i", .int 0], .sym "acc")]
+      (.call (.sym "loop") [.call (.sym "-") [.sym "i", .int 1], .call (.sym "+") [.sym "acc", .sym "i"]])],
+   .call (.sym "trace") [.call (.sym "loop") [.int 3, .int 0]]]
+
+/-- `(defn g [] (set f 7)) (defn f [n] (cond (== n 0) 0 (begin (g) (f (- n 1))))) (f 2)`: the name is re-bound
+before the tail call; the guard fails and the ordinary call reports the error (the divergence fixed by
+C09-02: without the guard the machine re-entered `f`) -/
+def demoTailRebind : List Expr :=
+  [.defn "g" [] none [.set_ "f" (.int 7)],
+   .defn "f" ["n"] none [.cond [(.call (.sym "==") [.sym "n", .int 0], .int 0)]
+      (.begin_ [.call (.sym "g") [], .call (.sym "f") [.call (.sym "-") [.sym "n", .int 1]]])],
+   .call (.sym "f") [.int 2]]
+
+/-- `(defn cnt [n acc] (let [m (- n 1)] (cond (< m 0) acc (cnt m (+ acc 1))))) (trace (cnt 4 0))`: the tail call
+inside a `let` (two scopes are dropped before the jump) -/
+def demoTailLet : List Expr :=
+  [.defn "cnt" ["n", "acc"] none [.let_ false [("m", .call (.sym "-") [.sym "n", .int 1])]
+      [.cond [(.call (.sym "<") [.sym "m", .int 0], .sym "acc")]
+        (.call (.sym "cnt") [.sym "m", .call (.sym "+") [.sym "acc", .int 1]])]],
+   .call (.sym "trace") [.call (.sym "cnt") [.int 4, .int 0]]]
+
+/-- `(defn firstbig [xs lim] (def r 0) (for [(def i 0) (< i (len xs)) (set i (+ i 1))] (cond (> (aget xs i) lim)
+(begin (set r (aget xs i)) (break)) nil)) r) (trace (firstbig [1 5 9 7] 4))`: a loop that `break`s inside a function body -/
+def demoFnBrk : List Expr :=
+  [.defn "firstbig" ["xs", "lim"] none [.def_ "r" (.int 0),
+      .for_ none (.def_ "i" (.int 0)) (.call (.sym "<") [.sym "i", .call (.sym "len") [.sym "xs"]])
+        (.set_ "i" (.call (.sym "+") [.sym "i", .int 1]))
+        [.cond [(.call (.sym ">") [.call (.sym "aget") [.sym "xs", .sym "i"], .sym "lim"],
+            .begin_ [.set_ "r" (.call (.sym "aget") [.sym "xs", .sym "i"]), .break_ none])] .nilLit],
+      .sym "r"],
+   .call (.sym "trace") [.call (.sym "firstbig") [.arr [.int 1, .int 5, .int 9, .int 7], .int 4]]]
+
+/-- `(defn sumodd [n acc] (for [(def i 0) (< i n) (set i (+ i 1))] (cond (== (mod i 2) 0) (continue) nil) (set acc (+ acc i)))
+(cond (> n 4) (sumodd (- n 2) acc) acc)) (trace (sumodd 6 0))`: a loop with `continue`, then a self tail call -/
+def demoFnCont : List Expr :=
+  [.defn "sumodd" ["n", "acc"] none [
+      .for_ none (.def_ "i" (.int 0)) (.call (.sym "<") [.sym "i", .sym "n"]) (.set_ "i" (.call (.sym "+") [.sym "i", .int 1]))
+        [.cond [(.call (.sym "==") [.call (.sym "mod") [.sym "i", .int 2], .int 0], .continue_ none)] .nilLit,
+         .set_ "acc" (.call (.sym "+") [.sym "acc", .sym "i"])],
+      .cond [(.call (.sym ">") [.sym "n", .int 4], .call (.sym "sumodd") [.call (.sym "-") [.sym "n", .int 2], .sym "acc"])]
+        (.sym "acc")],
+   .call (.sym "trace") [.call (.sym "sumodd") [.int 6, .int 0]]]
+
+example : FyList demoFnBrk = true := by fy_mem demoFnBrk
+example : FyList demoFnCont = true := by fy_mem demoFnCont
+/-- the programs of Fx (top-level loops with `break`/`continue`) are programs of F2c -/
+example : FyList demoBrk = true ∧ FyList demoOuter = true := by
+  constructor
+  · fy_mem demoBrk
+  · fy_mem demoOuter
+
+theorem demoTail_in : FyList demoTail = true := by fy_mem demoTail
+theorem demoTailRebind_in : FyList demoTailRebind = true := by fy_mem demoTailRebind
+example : FyList demoTailLet = true := by fy_mem demoTailLet
+/-- the self tail call is what takes `demoTail` out of F2 -/
+example : FtList demoTail = false := by fy_mem demoTail
+
+set_option maxRecDepth 8000 in
+theorem demoTail_ref :
+    refClass (Ref.evalBegin 40 demoTail 0 { Ref.initSt with trace := [] }) = some (some (.int 6#64)) := by
+  have trb : ∀ b : Bool, truthy (.bool b) = b := fun _ => rfl
+  simp [demoTail, Ref.evalBegin, Ref.eval, Ref.evalArgs, Ref.applyFn, Ref.bindParams, Ref.newFrame, Ref.evalCond,
+    Ref.define, Ref.setVar, Ref.lookup, Ref.lookupIn, Ref.initSt, Ref.assocSet, Ref.globalNames, coreBuiltins,
+    refClass, List.lookup, prim, isFunction, allInts, intOfLit, Ref.isLazyParam, rebindOk, tyOf, isCmp, compareVals,
+    cmpResult, trb]
+
+set_option maxRecDepth 8000 in
+theorem demoTailRebind_ref :
+    refClass (Ref.evalBegin 30 demoTailRebind 0 { Ref.initSt with trace := [] }) = some none := by
+  have trb : ∀ b : Bool, truthy (.bool b) = b := fun _ => rfl
+  simp [demoTailRebind, Ref.evalBegin, Ref.eval, Ref.evalArgs, Ref.applyFn, Ref.bindParams, Ref.newFrame, Ref.evalCond,
+    Ref.define, Ref.setVar, Ref.lookup, Ref.lookupIn, Ref.initSt, Ref.assocSet, Ref.globalNames, coreBuiltins,
+    refClass, List.lookup, prim, isFunction, allInts, intOfLit, Ref.isLazyParam, rebindOk, tyOf, isCmp, compareVals,
+    cmpResult, trb]
+
+/-- instances of `compile_correct_on_F2c` with a real outcome on the reference side: value 6 after three
+jumps to instruction 0; an error when the name was re-bound (guard fails, ordinary call of `7`) -/
+example : ∃ fuel' o, obsOfRef (Ref.runProgram 40 demoTail Ref.initSt).1 = some o
+    ∧ obsOfVM (VM.runText fuel' demoTail VM.initSt).1 = some o := by
+  have h := demoTail_ref
+  cases hres : Ref.evalBegin 40 demoTail 0 { Ref.initSt with trace := [] } with
+  | ok v rs' =>
+    have ho : obsOfRef (Ref.runProgram 40 demoTail Ref.initSt).1 = some (.ok (pr rs'.heap v) rs'.trace) := by
+      unfold Ref.runProgram; simp only [hres]; rfl
+    obtain ⟨f, hf⟩ := compile_correct_on_F2c demoTail demoTail_in (by decide) 40 _ ho
+    exact ⟨f, _, ho, hf⟩
+  | err rs' => rw [hres] at h; simp [refClass] at h
+  | timeout => rw [hres] at h; simp [refClass] at h
+  | brk l rs' => rw [hres] at h; simp [refClass] at h
+  | cont l rs' => rw [hres] at h; simp [refClass] at h
+
+example : ∃ fuel' t, obsOfRef (Ref.runProgram 30 demoTailRebind Ref.initSt).1 = some (.err t)
+    ∧ obsOfVM (VM.runText fuel' demoTailRebind VM.initSt).1 = some (.err t) := by
+  have h := demoTailRebind_ref
+  cases hres : Ref.evalBegin 30 demoTailRebind 0 { Ref.initSt with trace := [] } with
+  | err rs' =>
+    have ho : obsOfRef (Ref.runProgram 30 demoTailRebind Ref.initSt).1 = some (.err rs'.trace) := by
+      unfold Ref.runProgram; simp only [hres]; rfl
+    obtain ⟨f, hf⟩ := compile_correct_on_F2c demoTailRebind demoTailRebind_in (by decide) 30 _ ho
+    exact ⟨f, _, ho, hf⟩
+  | ok v rs' => rw [hres] at h; simp [refClass] at h
+  | timeout => rw [hres] at h; simp [refClass] at h
+  | brk l rs' => rw [hres] at h; simp [refClass] at h
+  | cont l rs' => rw [hres] at h; simp [refClass] at h
+
+/-- the programs covered by a theorem: every top-level form in Fv, or every top-level form in Fc,
+or every top-level form in F2, or every top-level form in Fx (F2 with `break`/`continue` in top-level loops),
+or every top-level form in F2c (F2 forms and top-level `defn`s with self tail calls) -/
+def InProvedFragment (p : List Expr) : Prop :=
+  FvList p = true ∨ FcList p = true ∨ FtList p = true ∨ FxTop p = true ∨ FyList p = true
+
+/-- **The part of `CompileCorrect` that is NOT proved**: programs that are in none of Fv, Fc, F2, Fx, F2c —
 i.e. using a `fn`/`defn` inside
-an operand of a call (compiled at run time), with a rest parameter, lazy parameters or a self call
-in a directly compiled position, `map`/`apply`/`force`/`substitute`, computed call heads,
-`break`/`continue` inside a function body, an empty `newScope`, or (together with calls or
+an operand of a call (compiled at run time), with a rest parameter, lazy parameters, a self call in
+a directly compiled non-tail position or in a nested `defn`, `map`/`apply`/`force`/`substitute`, computed call heads,
+`break`/`continue` inside the body of a nested function, an empty `newScope`, or (together with calls or
 array literals) a binder that re-uses a builtin name. Held by the 3-way `eval` correspondence on
 every run, not by a theorem. -/
 def CompileCorrectOutsideProved : Prop := CompileCorrectOn (fun p => ¬ InProvedFragment p)
@@ -1145,14 +1317,19 @@ def CompileCorrectOutsideProved : Prop := CompileCorrectOn (fun p => ¬ InProved
    * Fx — F2 plus `break`/`continue` (plain or labelled) of the enclosing `for` loops in top-level code,
      under `begin`/`cond`/`let`/`letseq`/`newScope`/nested loop bodies: a non-landing outcome of the
      simulation (`Sim.SimX`, `Sim.JumpedF`) — `compile_correct_on_F2x`;
+   * F2c — Fx statements and top-level `defn`s whose bodies call the function itself in tail position
+     (`Sim.Fz`: under `begin`/`cond`/`let`/`letseq`/`newScope`) and whose loops `break`/`continue`: the
+     self-tail-call sequence with its guard, both paths (`Sim.SimT`, `Sim.RetOut`, `Sim.simT_selfcall`);
+     loops with exits inside function bodies (`Sim.simF_stmt`) — `compile_correct_on_F2c`;
    * for the effect-free sub-fragment F0c with explicit fuel on both sides — `compile_correct_F0c`;
 2. the full `CompileCorrect` follows from its restriction to the remaining programs
    (`CompileCorrectOutsideProved`, the precise unproved remainder);
 3. the layout half for `begin`/`cond`/`and`/`or` as before (and `gen_for_layout` for loops).
 
 MISSING (held by the `eval` correspondence only): `CompileCorrectOutsideProved` — `break`/`continue`
-inside function bodies (the loop contexts of `Sim.CtxF` are stated for top-level code), the rest of F2
-(`fn`/`defn` inside operands, varargs), F3 (self tail calls, `map`/`apply`, lazy parameters). -/
+inside the bodies of nested functions (`fn`, `defn` not at top level), the rest of F2
+(`fn`/`defn` inside operands, varargs), self tail calls in nested `defn`s and together with
+`break`/`continue`, F3 (`map`/`apply`, lazy parameters). -/
 theorem compile_correct_partial :
     CompileCorrectOn InProvedFragment
     ∧ (CompileCorrectOutsideProved → CompileCorrect)
@@ -1163,11 +1340,12 @@ theorem compile_correct_partial :
         ∃ pre, asmSC isOr cs = pre ++ asmSC isOr (cs.drop i)) := by
   have hin : CompileCorrectOn InProvedFragment := by
     intro p hp hwf
-    rcases hp with hp | hp | hp | hp
+    rcases hp with hp | hp | hp | hp | hp
     · exact compile_correct_on_Fv p hp hwf
     · exact compile_correct_on_Fc p hp hwf
     · exact compile_correct_on_F2 p hp hwf
     · exact compile_correct_on_F2x p hp hwf
+    · exact compile_correct_on_F2c p hp hwf
   refine ⟨hin, fun hout p hwf => ?_, gen_begin_pops_between,
     fun arms dflt i _ => asmCond_suffix arms dflt i, asmSC_suffix⟩
   by_cases h : InProvedFragment p
